@@ -184,10 +184,13 @@ def scenario(sh: Shard, seed, idx, tier):
                             out.setdefault("user_action_times", []).append(mw.w.now)
                             sh.count("user_actions")
                         await asyncio.sleep(0.05)
-                    if ph.mode in ("blackout", "down") and man._spa_state.name != "CONNECTED" and r.random() < 0.7:
-                        # the outage has been noticed (the state left CONNECTED) and the spa changes a
-                        # setting OUTSIDE the window the periodic refresh re-reads (a keypad user
-                        # changes the set point): only a complete new connection can show it
+                    if ph.mode in ("blackout", "down") and man._spa_state.name in ("ERROR_PING_MISSED", "ERROR_RF_FAULT") and not out.get("user_action_times") and not users and r.random() < 0.7:
+                        # the outage has been reported by the connection itself (an error state that only
+                        # a reset - a complete new connection - leads out of) and the spa changes a
+                        # setting OUTSIDE the window the periodic refresh re-reads (a keypad user changes
+                        # the set point).  Not while a connection attempt may be under way (CONNECTING, or
+                        # any state after a user reset that the pump may have interleaved with): such an
+                        # attempt may have fetched its block already and would rightly never see the change
                         b = bytearray(mw.sim.block)
                         pos_ = r.choice([15, 16, 40, 100, 200])
                         b[pos_] = (b[pos_] + r.randrange(1, 255)) % 256
